@@ -11,6 +11,10 @@ type containerMetaList struct {
 	main       metaIterator
 	choiceCase *containerMetaList
 	s          *Selection
+
+	// err is set when the node could not tell which case of a choice is
+	// selected; iteration stops and callers report it
+	err error
 }
 
 type metaIterator interface {
@@ -69,6 +73,11 @@ func (self *containerMetaList) lookAhead() {
 	for {
 		if self.choiceCase != nil {
 			m = self.choiceCase.nextMeta()
+			if self.choiceCase.err != nil {
+				self.err = self.choiceCase.err
+				self.main, self.choiceCase = nil, nil
+				return
+			}
 			if m == nil {
 				self.choiceCase = nil
 				continue
@@ -83,7 +92,9 @@ func (self *containerMetaList) lookAhead() {
 		}
 		if choice, isChoice := m.(*meta.Choice); isChoice {
 			if chosen, err := self.s.Node.Choose(self.s, choice); err != nil {
-				panic(fmt.Sprintf("%T - %s", self.s.Node, err))
+				self.err = fmt.Errorf("%T - %w", self.s.Node, err)
+				self.main, self.choiceCase = nil, nil
+				return
 			} else if chosen != nil {
 				self.choiceCase = newChoiceCaseIterator(self.s, chosen)
 				continue
